@@ -514,11 +514,22 @@ fn noise_probe(a: &mut Args) -> String {
 fn peer_framing_probe(a: &mut Args) -> String {
 	let nf = a.usize();
 	let frags: Vec<usize> = (0..nf).map(|_| a.usize()).collect();
+	// optional `w<k>`: every socket accepts at most k bytes per send_data call (back-pressure); the driver then reports
+	// free space (write_buffer_space_avail) until the queue has drained
+	let mut it2 = a.it.clone();
+	let wlimit = match it2.next() {
+		Some(t) if t.starts_with('w') => { a.it.next(); t[1..].parse::<usize>().expect("write limit") },
+		_ => 0,
+	};
+	WRITE_LIMIT.with(|w| w.set(wlimit));
 	let n = a.usize();
 	let lens: Vec<usize> = (0..n).map(|_| a.usize()).collect();
+	// (a panic inside either PeerManager counts as a failed delivery for that fragment size)
 	let good = frags.iter().filter(|f| {
-		let (got, same, closed) = framing_run(**f, &lens, None);
-		got == lens.len() && same && !closed
+		match catch_unwind(AssertUnwindSafe(|| framing_run(**f, &lens, None))) {
+			Ok((got, same, closed)) => got == lens.len() && same && !closed,
+			Err(_) => false,
+		}
 	}).count();
 	format!("{} {}", good, frags.len())
 }
@@ -532,6 +543,8 @@ fn init_first_probe(a: &mut Args) -> String {
 	let (got, _, closed) = framing_run(0, &[], Some(mode));
 	format!("{} {}", got, closed as u8)
 }
+
+thread_local! { static WRITE_LIMIT: std::cell::Cell<usize> = std::cell::Cell::new(0); }
 
 fn framing_run(frag: usize, lens: &[usize], raw_mode: Option<u8>) -> (usize, bool, bool) {
 	use bitcoin::secp256k1::PublicKey;
@@ -616,8 +629,10 @@ fn framing_run(frag: usize, lens: &[usize], raw_mode: Option<u8>) -> (usize, boo
 	}
 	impl SocketDescriptor for Sock {
 		fn send_data(&mut self, data: &[u8], _continue_read: bool) -> usize {
-			self.out.lock().unwrap().extend_from_slice(data);
-			data.len()
+			let lim = WRITE_LIMIT.with(|w| w.get());
+			let n = if lim == 0 { data.len() } else { data.len().min(lim) };
+			self.out.lock().unwrap().extend_from_slice(&data[..n]);
+			n
 		}
 		fn disconnect_socket(&mut self) {
 			self.closed.store(true, Ordering::SeqCst);
@@ -713,6 +728,20 @@ fn framing_run(frag: usize, lens: &[usize], raw_mode: Option<u8>) -> (usize, boo
 		}
 		pm[0].process_events();
 		pm[1].process_events();
+		if WRITE_LIMIT.with(|w| w.get()) != 0 {
+			// the sockets took only part of what was offered: report free space until both queues have drained
+			for _ in 0..20000 {
+				let before = socks[0].out.lock().unwrap().len() + socks[1].out.lock().unwrap().len();
+				for i in 0..2 {
+					let mut d = socks[i].clone();
+					let _ = pm[i].write_buffer_space_avail(&mut d);
+				}
+				if socks[0].out.lock().unwrap().len() + socks[1].out.lock().unwrap().len() == before {
+					break;
+				}
+				moved = true;
+			}
+		}
 		if !moved && round > 6 {
 			break;
 		}
